@@ -293,6 +293,27 @@ LaterForms ==
      F("require_variable", 1, "def m = p0; require m"),
      F("require_expression", 1, "require [p0][0]") >>
 
+(* Round 5: walks during which the program itself runs - the key function of find / find_last / sorted, the
+   `_str_` member of an object that is rendered - and changes the collection being walked (the same class as
+   for_put / for_append above, for the walks inside the built-in functions and inside the rendering), and
+   names a built-in looks up in the environment (`compare`, `identity`, `checkerlang_module_path`) bound by
+   the program to the pool value.  The walk ends with a value whatever the function did to the collection
+   (`always_value`); a name bound to something unusable is an error of the program (`always_error`).        *)
+WalkForms ==
+  << G("find_key_shrinks", 1, "def l = [1, 2, 3]; find(l, p0, key = fn(x) do delete_at(l, 0); x end)", "always_value", ""),
+     G("find_key_grows", 1, "def l = [1, 2, 3]; find(l, p0, key = fn(x) do if length(l) < 9 then append(l, 0); x end)",
+       "always_value", ""),
+     G("find_last_key_shrinks", 1,
+       "def l = [1, 2, 3, 4, 5]; find_last(l, p0, key = fn(x) do delete_at(l, 0); delete_at(l, 0); x end)", "always_value", ""),
+     G("sorted_key_shrinks", 1, "def l = [3, 1, 2]; sorted(l, key = fn(x) do delete_at(l, 0); x end); p0", "always_value", ""),
+     G("str_adds_member", 1,
+       "def o = <*a = p0*>; o->b = <*_str_ = fn(self) do o->zz = 1; 'x' end*>; string(o)", "always_value", ""),
+     G("str_removes_member", 1,
+       "def o = <*a = 1*>; o->b = <*_str_ = fn(self) do remove(o, 'a'); 'x' end*>; o->c = p0; string(o)", "always_value", ""),
+     G("str_builtin_member", 1, "string(<*a = p0, _str_ = type*>)", "always_value", ""),
+     G("module_path_shadowed", 1, "def checkerlang_module_path = p0; require Nosuchmodule5", "always_error", ""),
+     G("module_path_entry_shadowed", 1, "def checkerlang_module_path = [p0]; require Nosuchmodule5", "always_error", "") >>
+
 Forms ==
   << F("neg", 1, "-p0"), F("pos", 1, "+p0"), F("not", 1, "not p0") >>
   \o IsForms \o IsNotForms \o
@@ -339,7 +360,7 @@ Forms ==
      F("fmt_hex", 1, "s('{p0#x}')"),
      F("fmt_wide", 1, "s('{p0#4000000}')"),        \* padding is linear in the width
      F("fmt_bad", 1, "s('{p0#q}')") >>
-  \o LaterForms \o BinForms \o CompoundForms \o
+  \o LaterForms \o WalkForms \o BinForms \o CompoundForms \o
   << F("elif", 2, "if p0 then 1 elif p1 then 2 else 3"),
      F("catch_second", 2, "do error p0 catch 'zz' 1 catch p1 2 end"),
      G("lc_product_if", 2, "[[a, b] for a in p0 for b in [1] if p1]", "compr_if_each", ""),
@@ -428,6 +449,8 @@ Rule(name, w, a, b, c) ==
     [] name = "while" -> C(a.k = "boolean")
     [] name = "error" -> "error"
     [] name = "catch_all" -> "value"
+    [] name = "always_value" -> "value"
+    [] name = "always_error" -> "error"
     [] name = "guard_bool" -> C(IsBool(a))          \* a condition, on whichever pass it is evaluated
     [] name = "guard_coll" -> C(IsColl(a))          \* an element to destructure, whichever it is
     [] name = "elif" -> C(IsBool(a) /\ (IsTrue(a) \/ IsBool(b)))
